@@ -20,6 +20,7 @@ from ..properties import (
     OpenVocabProperty, ReferenceProperty, StringProperty, TimestampProperty,
     TypeProperty,
 )
+from ..registration import _validate_extension_type
 from ..registry import class_for_type
 from .base import _Extension, _Observable, _STIXBase21
 from .common import CustomExtension, GranularMarking
@@ -930,6 +931,8 @@ def CustomObservable(type='x-custom-observable', properties=None, id_contrib_pro
                     "Invalid extension name '%s': must be the id of an "
                     "extension definition" % extension_name,
                 )
+            # Refuse a bad name now: once the type is registered it is too late
+            _validate_extension_type(extension_name, '2.1')
             if class_for_type(extension_name, '2.1', 'extensions'):
                 raise DuplicateRegistrationError(
                     "Extension", extension_name,
